@@ -129,14 +129,25 @@ def _int(x):
 
 
 def _log_const(c):
+    """log of a positive constant q * PI^k (q rational): k (LOG2PI - LOG2) + sum_p e_p LOG<p> over the prime factorisation of q,
+    with LOG2 / LOG2PI the two generators the library's own expressions use (ln pi = LOG2PI - LOG2)."""
     c = D(c)
-    if c == 2 * PI:
-        return LOG2PI
-    if c == D(2):
-        return LOG2
-    if c.is_one():
-        return D(0)
-    raise Undecided(f"log of constant {c}")
+    if len(c.t) != 1:
+        raise Undecided(f"log of constant {c}")
+    (mono, q), = c.t.items()
+    if q <= 0 or any(m != "PI" for m in mono):
+        raise Undecided(f"log of constant {c}")
+    out = (LOG2PI - LOG2) * len(mono)
+    for n, sgn in ((q.numerator, 1), (q.denominator, -1)):
+        p = 2
+        while n > 1 and p < 1000:
+            while n % p == 0:
+                out = out + (LOG2 if p == 2 else Dim.sym(f"LOG{p}")) * sgn
+                n //= p
+            p += 1
+        if n > 1:
+            raise Undecided(f"log of constant {c}")
+    return out
 
 
 INF_RULES = {"Phi": {1: 1, -1: 0}, "phi": {1: 0, -1: 0}, "Normpdf": {1: 0, -1: 0}, "Normcdf": {1: 1, -1: 0}, "Normlogcdf": {1: 0},
